@@ -65,7 +65,13 @@ def check(tm, options, path, solution=None, complete=True, n_probes=0, screening
         return V, C
     st = sim_stages[0]
     ups = [u for u in st["updates"] if not u.get("failed")]
-    dts = [u["dt"] for u in ups]
+    # the time step actually used by a step = dt of the last accepted solve_for_psi_squared call
+    dts = [u.get("dt_used", u["dt"]) for u in ups]
+    cnt("returned_dt_checks", len(ups))
+    for u in ups:
+        if u["dt"] != u.get("dt_used", u["dt"]):
+            viol("returned_dt_ne_used_dt", "recorded_dt_ne_used_dt", {"step": u["step"], "returned": u["dt"], "used_by_accepted_solve": u.get("dt_used"), "refusals": u.get("refusals")})
+            break
     frames, order_in_file = read_frames(path)
     cnt("runs_checked")
 
@@ -190,8 +196,8 @@ def check(tm, options, path, solution=None, complete=True, n_probes=0, screening
         viol("record_count_wrong", "record_count_wrong", {"records": nrec, "steps": N})
     for s in range(min(lim, nrec, len(ups))):
         u, r = ups[s], records[s]
-        if r["dt"] != u["dt"]:
-            viol("record_dt_wrong", "record_wrong", {"step": s, "file": r["dt"], "used": u["dt"]})
+        if r["dt"] != u.get("dt_used", u["dt"]):
+            viol("record_dt_wrong", "recorded_dt_ne_used_dt", {"step": s, "file": r["dt"], "used": u.get("dt_used", u["dt"])})
             break
         if "probe_mu" in u and "mu" in r and r["mu"] != u["probe_mu"]:
             viol("record_mu_wrong", "record_wrong", {"step": s, "file": r["mu"], "returned": u["probe_mu"]})
